@@ -8,6 +8,8 @@
    traces of the real xcp in harness/props/c06.py. *)
 From XcpModel Require Import Base ConcBlock ConcFile ConcOutcome.
 From XcpProofs Require Import ConcBlockProofs ConcFileProofs ConcOutcomeProofs.
+From XcpModel Require Import Paths Walker.
+From XcpProofs Require Import WalkerProofs.
 From Coq Require Import Permutation.
 Local Open Scope nat_scope.
 
@@ -62,6 +64,41 @@ Proof. exact final_writes_complete. Qed.
 Theorem C06_trace_judgement_sound : forall o p, outcome_okb o p = true -> outcome_ok o p.
 Proof. exact outcome_okb_sound. Qed.
 
+(* a directory always exists before anything is created inside it: the walker
+   reaches every directory (and creates it itself, synchronously, before it
+   sends any later operation) before every entry below it — for every tree,
+   ignore filter and dereference setting.  With C12_size_before_copied-style
+   causality (an operation is executed only after the walker has sent it)
+   this orders mkdir(parent) before every creation below it in EVERY schedule;
+   the supervisor traces are checked for exactly that. *)
+Theorem C06_directory_before_children : forall keep deref t A q k d B,
+  sel_entries keep deref [] t = A ++ (q, k, d) :: B -> q <> [] ->
+  exists d', In (removelast q, EDir, d') (A ++ [(q, k, d)]).
+Proof.
+  intros keep deref t A q k d B E Hq.
+  pose proof (sel_parents_first keep deref t [] [[]] ltac:(now left)) as Hp.
+  destruct (parents_first_spec _ _ _ _ _ _ _ Hp E) as [[H0|[]]|[d' Hin]].
+  - (* the parent is the source root: the root entry is the first selected entry and is a directory *)
+    destruct A as [|[[q0 k0] d0] A'].
+    + (* q itself would be the first entry, i.e. the root *)
+      exfalso. rewrite sel_entries_eq in E. destruct (negb (keep [] _)); [discriminate|].
+      cbn [app] in E. injection E as E1 _. destruct t as [len|cs|text res|ft|ft]; cbn in E1;
+        try (injection E1 as <- _ _; now apply Hq).
+      destruct deref; [destruct res as [| |[len|cs|text' res'|ft|ft]]|]; cbn in E1; injection E1 as <- _ _; now apply Hq.
+    + rewrite sel_entries_eq in E. destruct (negb (keep [] _)); [discriminate|].
+      cbn [app] in E. injection E as E1 E2.
+      assert (q0 = [] /\ (k0 = EDir \/ match snd (node_entry deref [] t) with Some _ => False | None => True end)) as [-> Hk].
+      { destruct t as [len|cs|text res|ft|ft]; cbn in E1 |- *; try (injection E1 as <- <- _; split; [reflexivity|now right]).
+        - injection E1 as <- <- _. split; [reflexivity|now left].
+        - destruct deref; [destruct res as [| |[len|cs|text' res'|ft|ft]]|]; cbn in E1 |- *; injection E1 as <- <- _;
+            split; try reflexivity; try (now right); now left. }
+      destruct Hk as [->|Hk].
+      * exists d0. left. rewrite <- H0. reflexivity.
+      * (* the root is not a directory: it has no children, so there is no second entry *)
+        destruct (snd (node_entry deref [] t)); [contradiction|]. destruct A'; discriminate.
+  - exists d'. apply in_or_app. now left.
+Qed.
+
 (* non-vacuity: a concrete schedule of a two-file, three-block workload with
    W = 2, Q = 1 reaches a final state, blocks completing out of order *)
 Example C06_nonvacuous :
@@ -80,3 +117,4 @@ Print Assumptions C06_history_shape.
 Print Assumptions C06_metadata_after_last_write.
 Print Assumptions C06_blocks_exactly_once.
 Print Assumptions C06_trace_judgement_sound.
+Print Assumptions C06_directory_before_children.
